@@ -4,13 +4,24 @@
 (* set of pool buffers.  Checks that the protocol keeps the C09 ownership  *)
 (* invariants under every interleaving.                                    *)
 EXTENDS BufPool
-CONSTANTS Bufs,        \* pool buffer ids (positive integers)
-          Kind,        \* "reader" | "bytesreader" | "writer" | "byteswriter" | "decoder"
-          MaxSteps,
-          Protocol     \* "park" (the code) | "freeOnGrow" (a seeded design error, used only to show the invariants bite)
-VARIABLES cur,         \* current buffer: a pool buffer, 0 (caller memory) or -1 (none)
-          pend,        \* parked pool buffers
-          nsid, steps
+CONSTANTS
+  \* @type: Set(Int);
+  Bufs,        \* pool buffer ids (positive integers)
+  \* @type: Str;
+  Kind,        \* "reader" | "bytesreader" | "writer" | "byteswriter" | "decoder"
+  \* @type: Int;
+  MaxSteps,
+  \* @type: Str;
+  Protocol     \* "park" (the code) | "freeOnGrow" (a seeded design error, used only to show the invariants bite)
+VARIABLES
+  \* @type: Int;
+  cur,         \* current buffer: a pool buffer, 0 (caller memory) or -1 (none)
+  \* @type: Set(Int);
+  pend,        \* parked pool buffers
+  \* @type: Int;
+  nsid,
+  \* @type: Int;
+  steps
 mcvars == <<pvars, cur, pend, nsid, steps>>
 
 MCInit ==
